@@ -119,13 +119,13 @@ def ps_measure_op(draw, n, hbar):
 
 @st.composite
 def ps_measure_ops(draw, n, hbar):
-    """one measurement. AUDIT-FINDING threshold-vacuum-crash: the bosonic threshold detector draws its outcome with
+    """one measurement. finding F67 (fixed), formerly AUDIT-FINDING threshold-vacuum-crash: the bosonic threshold detector draws its outcome with
     np.random.choice(p=[F, 1 - F]); for a mode that is numerically in the vacuum F exceeds 1 by more than the 1e-15 the code allows for
     (1 + 2e-13 with the cancelling weights of cat x Fock states, a few ulp are enough) and numpy raises ValueError -> every threshold
     detector is preceded by a displacement of the measured modes for now (which also makes the 'click' outcome, the only one after which
     the bosonic simulator holds several weights, frequent)"""
     mo = draw(ps_measure_op(n, hbar))
-    if mo[0] == "MeasureThreshold":
+    if mo[0] == "MeasureThreshold":  # (F67 is fixed; the displacement stays: a click on a mode that is almost in the vacuum divides the weights by ~0 and amplifies rounding)
         return [["Dgate", [draw(gen.fl(0.3, 1.5)), draw(gen.angle())], [m], {}] for m in mo[2]] + [mo]
     return [mo]
 
@@ -278,10 +278,9 @@ def _fix_fock_ops(ops_, D):
     for s in ops_:
         if s[0] == "Fock":
             s[1][0] = min(s[1][0], D - 1)
-        # AUDIT-FINDING displaced-squeezed-norm: the Fock-basis displaced squeezed state is super-normalised (norm^2 up to 1 + 1e-3)
+        # finding F64 (fixed): the Fock-basis displaced squeezed state is super-normalised (norm^2 up to 1 + 1e-3)
         # for a small but non-zero squeezing 1e-8 < |r_s| < ~1e-2 (regulariser 1e-10 in ops.displacedSqueezed) -> keep |r_s| >= 0.05 or 0
-        if s[0] == "DisplacedSqueezed" and 0 < abs(s[1][2]) < 0.05:
-            s[1][2] = 0.05 if s[1][2] > 0 else -0.05
+        pass  # (F64 fixed: small non-zero squeezing of DisplacedSqueezed is generated again)
     return ops_
 
 
@@ -615,9 +614,9 @@ def bng_case(draw):
     real_cats = sum(1 for p_ in preps if p_[0] == "Catstate" and p_[3].get("kw", {}).get("representation") == "real")
     gkps = sum(1 for p_ in preps if p_[0] == "GKP")
     sampling = real_cats == 0 and gkps <= 1 and (fock_photons == 0 or (fock_photons == 1 and gkps == 0)) and draw(st.booleans())
-    # AUDIT-FINDING real-cat-measurement-crash: when every mode is prepared as a real-representation cat state the weights are a float64
+    # finding F66 (fixed): when every mode is prepared as a real-representation cat state the weights are a float64
     # array and the in-place re-weighting of any dyne / threshold measurement raises UFuncTypeError -> no measurements in that class for now
-    if real_cats == n:
+    if False and real_cats == n:  # (F66 fixed: measurements on all-real-cat registers are generated again)
         kinds = ["msgate"]
     elif sampling:
         kinds = ["hom", "het", "msgate_single_shot", "hom", "het", "msgate", "hom_sel", "het_sel"]
@@ -644,7 +643,7 @@ def bng_case(draw):
             mo = draw(msgate_op(n, single_shot=sampling))
             if kind == "msgate_single_shot":
                 mo[1][4] = False
-        # AUDIT-FINDING threshold-vacuum-crash (see ps_measure_ops): the detector never looks at a mode that may be in the vacuum
+        # finding F67 (fixed), formerly AUDIT-FINDING threshold-vacuum-crash (see ps_measure_ops): the detector never looks at a mode that may be in the vacuum
         units.insert(draw(st.integers(0, len(units))), ([["Dgate", [draw(gen.fl(0.3, 1.5)), draw(gen.angle())], [m], {}]] if kind == "thr" else []) + [mo])
     return {"n": n, "hbar": hbar, "ops": preps + [o for u in units for o in u], "seed": draw(st.integers(0, 2 ** 16))}
 
